@@ -44,6 +44,9 @@ pub enum T {
     DecrCur,
     AppendCur,
     PrependCur,
+    /// append / prepend carrying a CAS that does not match (refused)
+    AppendStale,
+    PrependStale,
 }
 
 pub fn instantiate(t: T, client: usize, key: &[u8], other: &[u8]) -> Cmd {
@@ -76,6 +79,8 @@ pub fn instantiate(t: T, client: usize, key: &[u8], other: &[u8]) -> Cmd {
         T::DecrCur => Cmd::Delta { incr: false, key: k, delta: 1 + client as u64, initial: 100, exp: 0, cas: CasArg::Current, quiet: false },
         T::AppendCur => Cmd::Concat { append: true, key: k, value: tag("+"), cas: CasArg::Current, quiet: false },
         T::PrependCur => Cmd::Concat { append: false, key: k, value: tag("-"), cas: CasArg::Current, quiet: false },
+        T::AppendStale => Cmd::Concat { append: true, key: k, value: tag("+"), cas: CasArg::Stale1, quiet: false },
+        T::PrependStale => Cmd::Concat { append: false, key: k, value: tag("-"), cas: CasArg::Stale1, quiet: false },
         T::SetNew => Cmd::Store { kind: StoreKind::Set, key: format!("new{}", client).into_bytes(), value: tag("N"), flags: 80, ttl: 0, cas: CasArg::Zero, quiet: false },
     }
 }
@@ -253,6 +258,35 @@ pub fn c04_families(tier: Tier) -> Vec<Family> {
     fams
 }
 
+/// C06, concurrent part: the conditional stores against a concurrent plain store or read of the
+/// same key - only the pairs that are linearizable on the unchanged tree (pairs of two
+/// read-modify-write commands are C04's recorded findings): a replace or append that meets a
+/// concurrent set/get still answers by the presence rule, never 'key exists'.
+pub fn c06_families(tier: Tier) -> Vec<Family> {
+    let (same, _diff) = sibling_keys(K);
+    let keys = vec![K.to_vec(), same.clone()];
+    let pairs: Vec<(Vec<T>, Vec<T>)> = vec![
+        (vec![T::Replace], vec![T::Set]),
+        (vec![T::Replace], vec![T::Get]),
+        (vec![T::Replace], vec![T::Replace]),
+        (vec![T::Replace], vec![T::SetOther]),
+        (vec![T::Replace, T::Get], vec![T::Set]),
+        (vec![T::Add], vec![T::Get]),
+        (vec![T::Add], vec![T::SetOther]),
+        (vec![T::Add, T::Get], vec![T::Get]),
+        (vec![T::Append], vec![T::Get]),
+        (vec![T::Prepend], vec![T::Get]),
+        (vec![T::Append, T::Get], vec![T::GetOther]),
+    ];
+    let mut progs = vec![];
+    for init in INITS {
+        for (a, b) in &pairs {
+            progs.push(mk(init, vec![a.clone(), b.clone()], K, &same, keys.clone(), Policy::None));
+        }
+    }
+    vec![Family { name: "conditional-store-vs-plain".into(), programs: progs, opts: opts(if tier == Tier::Quick { 3 } else { 64 }, tier) }]
+}
+
 /// C08, concurrent part: delete (cas 0 / matching / stale) against concurrent stores and reads of
 /// the same and of another key: it removes exactly what it addresses, a CAS mismatch has no effect.
 pub fn c08_families(tier: Tier) -> Vec<Family> {
@@ -358,6 +392,24 @@ pub fn c16_families(tier: Tier) -> Vec<Family> {
         }
     }
     fams.push(Family { name: "1x2/random-tight".into(), programs: p1, opts: o });
+    // error paths return too: a refused (stale CAS, absent key, non-numeric) command followed by the
+    // same kind of command, on one client and across two
+    let mut pe = vec![];
+    let refused: Vec<Vec<T>> = vec![
+        vec![T::AppendStale, T::Append],
+        vec![T::PrependStale, T::Prepend],
+        vec![T::SetStale, T::Set],
+        vec![T::DelStale, T::Del],
+        vec![T::AppendStale, T::AppendStale],
+    ];
+    for init in INITS {
+        for r in &refused {
+            pe.push(mk(init, vec![r.clone()], K, &same, keys.clone(), Policy::None));
+            pe.push(mk(init, vec![vec![r[0]], vec![r[1]]], K, &same, keys.clone(), Policy::None));
+            pe.push(mk(init, vec![r.clone(), vec![T::Get]], K, &same, keys.clone(), Policy::None));
+        }
+    }
+    fams.push(Family { name: "refused-then-again".into(), programs: pe, opts: o });
     fams
 }
 
